@@ -6,7 +6,9 @@
 (* lookup, altitude schedule, weather set-up), the trajectory is flown       *)
 (* (performance table look-ups, optional mass iteration), and the context is *)
 (* removed again on every exit path.  The outcome of a flight is a function  *)
-(* of the mission kind and the builder options only.                         *)
+(* of the mission kind and the builder options only.  The performance model  *)
+(* is an argument of each flight, not of the builder: kind "ok_other_model"   *)
+(* is a flyable mission flown with a second performance model.                *)
 (***************************************************************************)
 EXTENDS Naturals, Sequences, TLC
 
